@@ -26,6 +26,22 @@ def dec_str(s):
 
 
 # ---------------------------------------------------------------- printing as Jinja source
+# intermediate frames between an enclosing loop and a block site: every kind of statement that opens a frame of its
+# own (with or without assignments of its own) and lets the block's output through unchanged
+WRAP_OPEN = {"if": "{% if 1 %}", "with": "{% with zw = 1 %}", "ifwith": "{% if 1 %}{% with zw = 1 %}",
+             "filter": "{% filter safe %}", "forelse": "{% for zq in [] %}{% else %}",
+             "call": "{% macro _mw() %}{{ caller() }}{% endmacro %}{% call _mw() %}",
+             "setblock": "{% set zsb %}", "filterif": "{% filter safe %}{% if 1 %}",
+             "withfilter": "{% with zw = 1 %}{% filter safe %}"}
+WRAP_CLOSE = {"if": "{% endif %}", "with": "{% endwith %}", "ifwith": "{% endwith %}{% endif %}",
+              "filter": "{% endfilter %}", "forelse": "{% endfor %}", "call": "{% endcall %}",
+              "setblock": "{% endset %}{{ zsb }}", "filterif": "{% endif %}{% endfilter %}",
+              "withfilter": "{% endfilter %}{% endwith %}"}
+# a set block at the top level of a child is EXECUTED by design ("one can use set blocks toplevel even in extended
+# templates"), so a block site inside it is called there and its errors surface: not a frame the model may skip
+WRAPS = sorted(w for w in WRAP_OPEN if w != "setblock")
+
+
 def src_items(items, blocks, out, wraps=None):
     for it in items:
         k = it[0]
@@ -38,11 +54,11 @@ def src_items(items, blocks, out, wraps=None):
         elif k == "b":
             scoped, required, body = blocks[it[1]]
             wrap = (wraps or {}).get(it[1])
-            out.append({"if": "{% if 1 %}", "with": "{% with zw = 1 %}", "ifwith": "{% if 1 %}{% with zw = 1 %}"}.get(wrap, ""))
+            out.append(WRAP_OPEN.get(wrap, ""))
             out.append("{%% block %s%s%s %%}" % (it[1], " scoped" if scoped else "", " required" if required else ""))
             src_items(body, blocks, out, wraps)
             out.append("{% endblock %}")
-            out.append({"if": "{% endif %}", "with": "{% endwith %}", "ifwith": "{% endwith %}{% endif %}"}.get(wrap, ""))
+            out.append(WRAP_CLOSE.get(wrap, ""))
         elif k == "u":
             out.append("{{ super" + ".super" * it[1] + "() }}")
         elif k == "f":
@@ -146,9 +162,32 @@ def extends_data(h, env=None):
     return d
 
 
+UNI_IDENT = {"b1": "bä1", "b2": "βλοκ2", "b3": "б3", "b4": "b４", "b5": "ｂ5", "f1": "fü1", "f2": "μ2", "m1": "mö1",
+             "m2": "м2", "q1": "q١", "q2": "ｑ2", "_mc": "_mç", "_mw": "_mω", "zw": "zŵ", "zs": "zş", "zsb": "zşb", "zq": "zɋ"}
+
+
+def unicodify(srcs, text=""):
+    """the same template set with non-ASCII identifiers (block, macro, alias and variable names; several scripts,
+    fullwidth forms that NFKC-normalise to other characters) and non-ASCII text; names keep being distinct"""
+    import re
+    pat = re.compile(r"(?<![\w.'])(" + "|".join(sorted(UNI_IDENT, key=len, reverse=True)) + r")(?![\w'])")
+
+    def one(src):
+        out = []
+        for part in re.split(r"(\{[%{].*?[%}]\})", src):
+            out.append(pat.sub(lambda m: UNI_IDENT[m.group(1)], part) if part.startswith(("{%", "{{")) else part)
+        return "".join(out)
+
+    def tag_self(src):
+        return re.sub(r"self\.(b[1-5])\(", lambda m: "self." + UNI_IDENT[m.group(1)] + "(", src)
+    return {n: tag_self(one(s)) + text for n, s in srcs.items()}
+
+
 def sources(h):
     res = {t["name"]: source(t, i) for i, t in enumerate(h["templates"])}
     res.update(aux_templates(h))
+    if h.get("unicode"):
+        res = unicodify(res)
     return res
 
 
@@ -386,9 +425,9 @@ class HGen:
         else:
             body = [("s", b[1:] + "abcdef"[lvl % 6])] + self.body(t, names, pending, nest, False, lvl)
         t["blocks"][b] = (scoped, required, body)
-        if r.random() < 0.3:
+        if r.random() < 0.4:
             # the site sits one or two statements deep (if / with) instead of directly in the enclosing body
-            t.setdefault("wraps", {})[b] = r.choice(["if", "with", "ifwith"])
+            t.setdefault("wraps", {})[b] = r.choice(WRAPS)
         return ("b", b)
 
     def template(self, name, lvl, names, parent, is_last):
@@ -473,4 +512,7 @@ class HGen:
             data["y"] = "Yy"
         if r.random() < 0.3:
             data["i"] = "I"
-        return {"templates": templates, "chain": chain, "data": data}
+        h = {"templates": templates, "chain": chain, "data": data}
+        if r.random() < 0.2:
+            h["unicode"] = True      # non-ASCII identifiers and text (printing only; the model works on name ids)
+        return h
